@@ -76,6 +76,12 @@ func (l *LiquidOnChain) CreateOpeningTransaction(swapParams *swap.OpeningParams)
 	if err != nil {
 		return "", "", "", 0, 0, err
 	}
+	// The wallet decides where it places the swap output (e.g. after the
+	// change): look it up instead of reporting index 0.
+	vout, err = l.VoutFromTxHex(txHex, redeemScript)
+	if err != nil {
+		return "", "", "", 0, 0, err
+	}
 	return txHex, blindedScriptAddr, txId, fee, vout, nil
 }
 
